@@ -66,6 +66,7 @@ def run(ctx):
     defaults_and_untyped(ctx)
     special_floats(ctx)
     shared_attribute_element_name(ctx)
+    repeated_requests(ctx)
     answers = ctx.driver.ask(reqs)
     for ans, (meta, actual, spec) in zip(answers, metas):
         model = [SM.canon_info(x) for x in ans] if isinstance(ans, list) else ans
@@ -420,6 +421,35 @@ def shared_attribute_element_name(ctx):
         want = [["a", "x"], ["flag", "true"], ["n", "7"], ["@flag", "yes"]]
         if got != want:
             ctx.fail("request differs from what the WSDL prescribes", meta, got, want)
+
+
+def repeated_requests(ctx):
+    """The same call made again builds the same, conforming request - also with a caller-made Element configured as
+    soap header (the caller's tree is not consumed by the first request)."""
+    from suds.sax.element import Element
+    schema = ('<xsd:element name="f"><xsd:complexType><xsd:sequence><xsd:element name="a" type="xsd:string"/>'
+              '</xsd:sequence></xsd:complexType></xsd:element>')
+    for prefixes in (True, False):
+        hdr = Element("Token", ns=("tk", "urn:token"))
+        inner = Element("Id", ns=("tk", "urn:token"))
+        inner.setText("t-1")
+        hdr.append(inner)
+        client = wsdlkit.client(wsdlkit.wsdl_doc(schema, "f", None), nosend=True, soapheaders=hdr, prefixes=prefixes)
+        seen = []
+        for n in range(3):
+            meta = {"stream": "repeated-requests", "prefixes": prefixes, "call": n}
+            ctx.case(common.canon(meta), True)
+            try:
+                env = wsdlkit.envelope_bytes(client.service.f("v"))
+                root = xmlread.parse(env)
+                toks = [x for x in xmlread.walk(root) if x["name"] == ("urn:token", "Id")]
+                fnode = xmlread.find1(xmlread.find1(root, "Body"), "f")
+                seen.append([[t.get("text") for t in toks], [[c["name"][1], c.get("text")] for c in fnode["children"]]])
+            except Exception as e:
+                seen.append("%s: %s" % (type(e).__name__, e))
+            if seen[-1] != [["t-1"], [["a", "v"]]]:
+                ctx.fail("request differs from what the WSDL prescribes", meta, seen[-1], [["t-1"], [["a", "v"]]])
+                break
 
 
 def one(ctx, client, I, op, args, mode, meta, env, reqs, metas):
